@@ -345,7 +345,30 @@ const FIXED: &[&str] = &["", " ", "\n", "--", "-", "---", "-- x", "a--", "a --",
     "select 'it\\'s' -- c\nfrom t;", "1a", "a1", "é1", "1é", "٣", "x -- é\n y", "'multi\nline' x", "x\n  y\n    z", "1 .5", "12 . 5", "a.b.c", "\u{a0}a\u{2028}b", "İS", "\u{212a}",
     "SELECT x FROM t WHERE y IS NOT NULL AND z NOT IN (1, 2) -- done", "a - -b", "a--b\nc", "- -", "--\n--\n--", "a;--", "'a'--", "1--2\n3"];
 
+/// every text over a small alphabet up to a length (exhaustive small scope; labelled as such in the tags)
+fn exhaustive(run: &mut Run, alphabet: &[char], maxlen: usize) {
+    let mut idx: Vec<usize> = Vec::new();
+    loop {
+        // next text in length-lexicographic order
+        let mut k = idx.len();
+        loop {
+            if k == 0 { idx = vec![0; idx.len() + 1]; break; }
+            k -= 1;
+            if idx[k] + 1 < alphabet.len() { idx[k] += 1; for j in k + 1..idx.len() { idx[j] = 0; } break; }
+        }
+        if idx.len() > maxlen { break; }
+        let t: String = idx.iter().map(|i| alphabet[*i]).collect();
+        emit_tok(run, &t, "exhaustive");
+    }
+}
+
 pub fn gen_all(run: &mut Run, rng: &mut Rng, p: &Params) {
+    if p.tier_thorough {
+        exhaustive(run, &['a', 'N', '1', '.', '\'', '\\', '-', '<', '=', ' ', '\n', ':'], 4);
+        exhaustive(run, &['i', 's', 'n', 'o', 't', ' ', '-', '\n'], 6);
+    } else {
+        exhaustive(run, &['a', '1', '.', '\'', '\\', '-', '<', '=', ' ', '\n', ':'], 3);
+    }
     for t in FIXED {
         let real = emit_tok(run, t, "fixed");
         near_cases(run, rng, t, &real, "fixed", 1);
